@@ -56,7 +56,7 @@ pred RepInv(r reporter.Reporter) :=
   && (typeis(r, "*balance.balanceReporterCollapsed") ==> BalCInv(ptr(balance.balanceReporterCollapsed, payload(r))))
   && (typeis(r, "*balance.balanceSingleReporter") ==> BalSInv(ptr(balance.balanceSingleReporter, payload(r))))
   && (typeis(r, "*register.elementByFoodReporter") ==> EbfInv(ptr(register.elementByFoodReporter, payload(r))))
-  && (typeis(r, "*register.regReporter") ==> DBOk(cellat(register.regReporter, payload(r)).db))
+  && (typeis(r, "*register.regReporter") ==> DBIs(cellat(register.regReporter, payload(r)).db))
   && (typeis(r, "*register.singleReporter") ==> DBIs(cellat(register.singleReporter, payload(r)).db))
   && (typeis(r, "*register.regReporterTemplate") ==> cellat(register.regReporterTemplate, payload(r)).template != nil && DBIs(cellat(register.regReporterTemplate, payload(r)).db))
   && (typeis(r, "*summary.SummaryReporterTemplate") ==> cellat(summary.SummaryReporterTemplate, payload(r)).template != nil && DBIs(cellat(summary.SummaryReporterTemplate, payload(r)).db))
@@ -87,6 +87,7 @@ pred RepBookBelow(r reporter.Reporter, lo int) :=
      (typeis(r, "*balance.balanceSingleReporter") ==> DBBelow(cellat(balance.balanceSingleReporter, payload(r)).db, lo))
   && (typeis(r, "*register.regReporterTemplate") ==> DBBelow(cellat(register.regReporterTemplate, payload(r)).db, lo))
   && (typeis(r, "*register.singleReporter") ==> DBBelow(cellat(register.singleReporter, payload(r)).db, lo))
+  && (typeis(r, "*register.regReporter") ==> DBBelow(cellat(register.regReporter, payload(r)).db, lo))
   && (typeis(r, "*summary.SummaryReporterTemplate") ==> DBBelow(cellat(summary.SummaryReporterTemplate, payload(r)).db, lo))
   && (typeis(r, "*report.TotalReporter") ==> DBBelow(cellat(report.TotalReporter, payload(r)).db, lo))
 
